@@ -8,21 +8,21 @@ ids=("$@")
 if [ ${#ids[@]} -eq 0 ]; then ids=($(ls selftest/mutants)); fi
 fail=0; n=0; skipped=0
 for id in "${ids[@]}"; do
-  for p in selftest/mutants/$id/*.patch selftest/mutants/$id/*.diff selftest/mutants/$id/*.drift; do
+  for p in selftest/mutants/$id/*.patch selftest/mutants/$id/*.diff selftest/mutants/$id/*.drift seeded/$id/*/patch.diff; do
     [ -f "$p" ] || continue
     scratch=$(mktemp -d "${TMPDIR:-/tmp}/govc-mut.XXXXXX")
     rsync -a --exclude .git /repo/ "$scratch/"
     if ! (cd "$scratch" && patch -p1 -s --no-backup-if-mismatch < "/verif/$p" >/dev/null 2>&1); then
-      echo "SKIP  $id $(basename $p) (does not apply)"; skipped=$((skipped+1)); rm -rf "$scratch"; continue
+      echo "SKIP  $id $(echo $p | sed 's|selftest/mutants/[^/]*/||; s|seeded/[^/]*/||') (does not apply)"; skipped=$((skipped+1)); rm -rf "$scratch"; continue
     fi
     n=$((n+1))
     out=$(REPO_DIR="$scratch" VERIF_NOEVIDENCE=1 bin/govc check "$id" 2>&1); rc=$?
     if [[ "$p" == *.drift ]] && [ $rc -eq 2 ]; then
-      echo "OK    $id $(basename $p): UNDECIDED as expected (the patch removes identifiers the contract names: contract drift, not reported as a violation)"
+      echo "OK    $id $(echo $p | sed 's|selftest/mutants/[^/]*/||; s|seeded/[^/]*/||'): UNDECIDED as expected (the patch removes identifiers the contract names: contract drift, not reported as a violation)"
     elif [ $rc -eq 1 ] && echo "$out" | grep -q "^VIOLATION property=$id"; then
-      echo "OK    $id $(basename $p): $(echo "$out" | grep -c '^VIOLATION') violation line(s); first: $(echo "$out" | grep '^VIOLATION' | head -1 | sed 's/.*obligation=//')"
+      echo "OK    $id $(echo $p | sed 's|selftest/mutants/[^/]*/||; s|seeded/[^/]*/||'): $(echo "$out" | grep -c '^VIOLATION') violation line(s); first: $(echo "$out" | grep '^VIOLATION' | head -1 | sed 's/.*obligation=//')"
     else
-      echo "MISS  $id $(basename $p): exit $rc"; echo "$out" | tail -5 | sed 's/^/      /'; fail=$((fail+1))
+      echo "MISS  $id $(echo $p | sed 's|selftest/mutants/[^/]*/||; s|seeded/[^/]*/||'): exit $rc"; echo "$out" | tail -5 | sed 's/^/      /'; fail=$((fail+1))
     fi
     rm -rf "$scratch"
   done
